@@ -19,26 +19,35 @@ vars == <<lib, cur, use, stage>>
 MacroNames == {"ma", "mb", "mc"}
 RegToks == {"ax", "bx"}
 LabToks == {"t", "tt", "ttt"}
-\* every macro takes two parameters; their names are prefixes / extensions of each other and of body tokens
-ParamSets == {<<"r", "rx">>, <<"rx", "r">>, <<"tt", "t">>, <<"r", "t">>, <<"k", "r">>, <<"t", "rx">>}
+\* every macro takes three parameters (surplus arguments of a use are ignored); their names are prefixes / extensions of each other and of body tokens
+ParamSets == {<<"r", "rx", "r_">>, <<"rx", "r", "r1">>, <<"tt", "t", "t2">>, <<"r", "t", "r_1">>, <<"k", "r", "t">>, <<"t", "rx", "r">>}
 
-ArgToks == {<<"ax">>, <<"bx">>, <<"cx">>, <<"t">>, <<"tt">>, <<"ttt">>}
-UnitsFor(params) ==
-  LET ps == {params[j] : j \in 1 .. Len(params)} IN
-     {[k |-> "ins", toks |-> <<"inc", x>>] : x \in RegToks \cup (ps \cap {"r", "rx"})}
-  \cup {[k |-> "ins", toks |-> <<"jmp", y>>] : y \in LabToks}
-  \cup {[k |-> "use", name |-> n, args |-> <<a, b>>] : n \in MacroNames \cup (ps \cap {"k"}),
-          a \in {<<"bx">>, <<"ma">>} \cup {<<p>> : p \in ps}, b \in {<<"t">>, <<"cx">>} \cup {<<p>> : p \in ps}}
+\* arguments: registers, labels, and bracketed memory operands (several tokens)
+ArgToks == {<<"ax">>, <<"bx">>, <<"cx">>, <<"t">>, <<"tt">>, <<"ttt">>, <<"word", "[", "bx", "]">>, <<"word", "[", "bp", ",", "si", ",", "2", "]">>}
+RegParams == {"r", "rx", "r_", "r1", "r_1"}
+\* macros are named in a fixed order; a body may use the macros defined so far (most uses), itself or the
+\* next one (cycles, forward references) and a macro passed in through parameter k
+NameSeq == <<"ma", "mb", "mc">>
+RegToksAll == {"ax", "bx", "cx", "dx", "si", "di"}
+UnitsFor(params, defined, selfnext) ==
+  LET ps == {params[j] : j \in 1 .. Len(params)}
+      mem1 == <<"word", "[", "bx", "]">>
+  IN {[k |-> "ins", toks |-> <<"inc", x>>] : x \in RegToksAll \cup (ps \cap RegParams)}
+     \cup {[k |-> "ins", toks |-> <<"jmp", y>>] : y \in LabToks}
+     \cup {[k |-> "use", name |-> n, args |-> <<a, b, c>>] : n \in defined,
+             a \in {<<"bx">>, <<params[1]>>}, b \in {<<"t">>, <<params[2]>>}, c \in {mem1, <<params[3]>>}}
+     \cup {[k |-> "use", name |-> n, args |-> <<<<params[1]>>, <<"tt">>, c>>] : n \in selfnext \cup (ps \cap {"k"}), c \in {mem1, <<params[3]>>}}
 
 Init == lib = << >> /\ cur = << >> /\ use = << >> /\ stage = "build"
 
 StartMacro ==
   /\ stage = "build" /\ cur = << >> /\ Len(lib) < MaxMacros
-  /\ \E n \in MacroNames \ Names(lib), ps \in ParamSets : cur' = [name |-> n, params |-> ps, body |-> << >>]
+  /\ \E ps \in ParamSets : cur' = [name |-> NameSeq[Len(lib) + 1], params |-> ps, body |-> << >>]
   /\ UNCHANGED <<lib, use, stage>>
 AddUnit ==
   /\ stage = "build" /\ cur # << >> /\ Len(cur.body) < MaxUnits
-  /\ \E u \in UnitsFor(cur.params) : cur' = [cur EXCEPT !.body = Append(@, u)]
+  /\ \E u \in UnitsFor(cur.params, Names(lib), {cur.name} \cup (IF Len(lib) + 2 <= 3 THEN {NameSeq[Len(lib) + 2]} ELSE {})) :
+       cur' = [cur EXCEPT !.body = Append(@, u)]
   /\ UNCHANGED <<lib, use, stage>>
 CloseMacro ==
   /\ stage = "build" /\ cur # << >> /\ cur.body # << >>
@@ -47,7 +56,9 @@ CloseMacro ==
 ChooseUse ==
   /\ stage = "build" /\ cur = << >> /\ lib # << >>
   /\ \E n \in Names(lib) \cup {"mz"} :
-       \E args \in [1 .. 2 -> ArgToks \cup {<<n2>> : n2 \in Names(lib)}] : use' = [name |-> n, args |-> args]
+       \E a1 \in ArgToks \cup {<<n2>> : n2 \in Names(lib)}, a2 \in {<<"t">>, <<"tt">>, <<"cx">>, <<"word", "[", "bx", "]">>},
+          a3 \in {<<"bx">>, <<"ttt">>, <<"word", "[", "bp", ",", "si", ",", "2", "]">>} :
+            use' = [name |-> n, args |-> <<a1, a2, a3>>]
   /\ stage' = "done"
   /\ UNCHANGED <<lib, cur>>
 
@@ -89,7 +100,7 @@ C13Laws ==
        \* whole-word substitution: no parameter of the used macro survives unless an argument put it there,
        \* and longer words containing a parameter name are untouched
        /\ (r.err = "" /\ use.name \in Names(lib) =>
-             \A i \in 1 .. Len(r.code) : Len(r.code[i]) = 2 /\ r.code[i][1] \in {"inc", "jmp"})
+             \A i \in 1 .. Len(r.code) : Len(r.code[i]) >= 2 /\ r.code[i][1] \in {"inc", "jmp"})
        /\ r.err \in {"", "unknown", "recursive", "arity"}
 
 \* direct statements of the substitution rule on hand-written cases
